@@ -75,6 +75,7 @@ fn main() {
         "registry" => registry::run(&args),
         "life" => life::run(&args),
         "kill_window" => life::kill_window(&args),
+        "tl_queued_cancel" => life::tl_queued_cancel(&args),
         "worker_enqueue" => worker::run(&args),
         "worker_books" => worker::books(&args),
         "worker_fates" => worker::fates(&args),
